@@ -228,6 +228,12 @@ theorem seq_monitor_sound (n : Nat) (ops : List SemOp) :
 example : ((Sem.init 2).trace [.tryBorrow, .borrow, .tryBorrow, .ret, .ret, .ret]).map (·.2)
     = [.ok, .ok, .refused, .ok, .ok, .errReturn] := by decide
 
+/-- The limit of what a counting channel can report (why `sem_cap` needs the discipline "return only what you
+borrowed"): with `n = 1`, A borrows, a caller B that borrowed nothing returns — no error, the channel cannot
+tell B's `Return` from A's — and C is admitted while A is still inside.  Over-return is detected exactly when
+the channel is empty (`over_return_is_error`, `returns_le_borrows`), not per caller. -/
+example : ((Sem.init 1).trace [.tryBorrow, .ret, .tryBorrow]).map (·.2) = [.ok, .ok, .ok] := by decide
+
 /-! ## 4. `syncx.Pool`
 
 `PReach limit maxAge s`: `s` is reachable from the empty pool by ANY sequence of `Get`s and `Put`s of any
